@@ -132,11 +132,12 @@ class Ctx:
         return [f for f in self.failures if f.kind == 'monitor']
 
     # ----- Coq ----------------------------------------------------------------------------
-    def require_coq(self, prop_files: Sequence[str], extra_targets: Sequence[str] = (), timeout: int = 1500):
+    def require_coq(self, prop_files: Sequence[str], extra_targets: Sequence[str] = (), timeout: int = 1500,
+                    pre: Optional[Callable[[], Any]] = None):
         """Build theories/<f>.vo for each property file (and its dependency cone), audit them:
         no forbidden vernacular in the cone, every Theorem closed (or stdlib axioms only)."""
         targets = [f'theories/{f}.vo' for f in list(prop_files) + list(extra_targets)]
-        ok, log = coq_make(targets, timeout=timeout)
+        ok, log = coq_make(targets, timeout=timeout, pre=pre)
         self.checker_cmds.append('make -C /verif/coq ' + ' '.join(targets) + '  (coqc 8.16.1, full .vo)')
         if not ok:
             (self.scratch / 'make.log').write_text(log)
@@ -262,11 +263,14 @@ def all_v_files() -> list[str]:
     return sorted(str(p.relative_to(COQ)) for p in THEORIES.rglob('*.v'))
 
 
-def coq_make(targets: Sequence[str], timeout: int = 1500) -> tuple[bool, str]:
-    """Full .vo build of the given targets under an exclusive lock (several checks may run at once)."""
+def coq_make(targets: Sequence[str], timeout: int = 1500, pre: Optional[Callable[[], Any]] = None) -> tuple[bool, str]:
+    """Full .vo build of the given targets under an exclusive lock (several checks may run at once).
+    `pre` (e.g. the translator that rewrites Generated.v) runs inside the same lock, right before make."""
     BUILD.mkdir(exist_ok=True)
     with open(BUILD / '.coqlock', 'w') as lock:
         fcntl.flock(lock, fcntl.LOCK_EX)
+        if pre is not None:
+            pre()
         files = all_v_files()
         proj = '-Q theories AB\n-arg -w -arg -notation-overridden,-deprecated-hint-without-locality,-deprecated\n' \
             + '\n'.join(files) + '\n'
